@@ -108,3 +108,17 @@ def guarded_by(body, site_bb, accept_edges):
     if site_bb not in body.reachable():
         return True
     return site_bb not in guards.reach_without_edges(body, accept_edges)
+
+
+def site_id(body, bi):
+    """line-free identity of a call site: function, callee, ordinal among same-callee calls (block order)"""
+    t = body.blocks[bi]["t"]
+    c = callee_of(t)
+    n = 0
+    for bj, tj in body.calls():
+        if bj == bi:
+            break
+        if callee_of(tj) == c:
+            n += 1
+    fn = body.path
+    return "%s>%s#%d" % (fn, c.split("::")[-1], n)
